@@ -134,21 +134,12 @@ func execSRV(c *ctx, ops []string) *caseResult {
 	var specs []k8s.Port // as requested (host port 0 = random)
 	var cur []k8s.Port   // as handed out by the last successful ADD
 	random := false
+	holding := false // the pod's sockets are open (successful ADD, no DEL yet)
 	var baseline map[string][]nf.Rule
 	var palette []int
 	pickPalette := func(n int) {
-		for len(palette) < n {
-			cl, p, err := tryBind("tcp", 0)
-			if err != nil {
-				return
-			}
-			cu, _, err2 := tryBind("udp", p)
-			cl.Close()
-			if err2 != nil {
-				continue
-			}
-			cu.Close()
-			palette = append(palette, p)
+		if len(palette) < n {
+			palette = freePorts(n)
 		}
 	}
 	fixedSocks := func() []sock {
@@ -220,6 +211,7 @@ func execSRV(c *ctx, ops []string) *caseResult {
 	defer func() {
 		if cid != "" {
 			h.CloseHostports(k8s.GetPodFullName(podName, podNS))
+			releaseOrphans()
 			os.Remove(filepath.Join(cni.PortDir, cid))
 			os.Remove(filepath.Join(cni.StateDir, cid))
 		}
@@ -347,6 +339,7 @@ func execSRV(c *ctx, ops []string) *caseResult {
 					}
 				}
 				emit(i, "srv-add "+fault+" "+encPorts(ps), outcome+" file="+fileTok())
+				holding = ok
 				if ok {
 					// held: every handed-out port is bound, the record exists
 					for _, p := range cur {
@@ -358,6 +351,12 @@ func execSRV(c *ctx, ops []string) *caseResult {
 						m.add("add-without-port-file", "a successful ADD left no port file")
 					}
 				} else {
+					if strings.Contains(r.Body, "address already in use") && !holding {
+						// a host port the pod does not hold itself is taken by the environment: never a verdict
+						res.inconclusive = true
+						res.violations = nil
+						return res
+					}
 					if fault == "-" {
 						m.add("retried-add-fails", "an ADD without injected fault failed: "+clip(r.Body))
 					}
@@ -369,6 +368,7 @@ func execSRV(c *ctx, ops []string) *caseResult {
 				}
 			} else {
 				emit(i, "srv-del "+fault, outcome+" file="+fileTok())
+				holding = false // cleanupPortMapping closes the sockets first, whatever happens afterwards
 				if ok {
 					leftovers("del", true, true, false)
 				} else if fault == "-" {
